@@ -1,9 +1,9 @@
 (* C06 — file arithmetic (core/_functions.py pncbo via PseudoNetCDFFile.__add__ ...) and
-   PseudoNetCDFFile.mask (core/_files.py).  Executable model only, elementwise over the
+   PseudoNetCDFFile.mask (core/_files.py), AFTER the fixes C06-pncbo-keep-masks,
+   C06-mask-dims-list and C06-mask-int-values.  Executable model only, elementwise over the
    row-major cells (so for every shape).  The scalar arithmetic itself is NOT modelled: per
-   cell the harness supplies numpy's elementwise result on the raw data (r) and, for
-   masked-typed operands, what numpy.ma leaves in the data buffer (z); the model decides where
-   masks go and which of the two values is exposed.  No proofs in this file. *)
+   cell the harness supplies numpy's elementwise result on the raw data (r); the model decides
+   where masks go.  No proofs in this file. *)
 From PNC Require Import Base.Util.
 Require Import QArith Qabs.
 Local Open Scope Q_scope.
@@ -20,12 +20,13 @@ Definition to_cell (x : rv) : ocell := if nonfin x then None else Some x.
 Record bcell := BC {
   m1 : bool; m2 : bool;        (* operand masks *)
   b0 : bool;                   (* right operand's raw value is zero *)
-  r : rv;                      (* numpy elementwise result on the raw data *)
-  z : rv                       (* data buffer of the numpy.ma result (meaningful for masked-typed operands) *)
+  r : rv                       (* numpy elementwise result on the raw data *)
 }.
 
-(* operator class: 0 = + - * and comparisons; 1 = / // % (numpy.ma domained); 2 = ** *)
-Definition leak (cls : nat) (c : bcell) : bool :=
+(* operator class: 0 = + - * and comparisons; 1 = / // % (numpy.ma domained); 2 = pow.
+   What numpy.ma masks when one of the operands is masked-typed: the operand masks, and for the
+   domained operators a zero divisor or a non-finite result. *)
+Definition ma_masks (cls : nat) (c : bcell) : bool :=
   m1 c || m2 c ||
   match cls with
   | O => false
@@ -33,12 +34,12 @@ Definition leak (cls : nat) (c : bcell) : bool :=
   | _ => nonfin (r c)
   end.
 
-(* pncbo: eval('in1var[...] op in2var[...]').view(np.ndarray) then masked_invalid.
-   is_ma = one of the two variables is a masked-typed variable: numpy.ma computes, masks the
-   operand-masked / domain-violating cells and puts a FINITE filler (z) under them; the
-   .view(np.ndarray) then throws the mask away and exposes the filler. *)
+(* pncbo: masked_invalid(eval('in1var[...] op in2var[...]').view(np.ma.MaskedArray)).
+   is_ma = one of the two variables is masked-typed: numpy.ma computes and masks (ma_masks); the
+   view keeps that mask and masked_invalid adds the non-finite cells.  Plain operands: numpy
+   computes, the view has no mask, masked_invalid masks the non-finite cells. *)
 Definition impl_cell (is_ma : bool) (cls : nat) (c : bcell) : ocell :=
-  if is_ma && leak cls c then to_cell (z c) else to_cell (r c).
+  if is_ma && ma_masks cls c then None else to_cell (r c).
 
 (* the property (masked-array semantics): masked where an operand is masked or the result is
    non-finite, else the elementwise result; for masked-typed operands numpy.ma additionally
@@ -48,9 +49,8 @@ Definition spec_cell (is_ma : bool) (cls : nat) (c : bcell) : ocell :=
   else if is_ma && (cls =? 1)%nat && b0 c then None
   else to_cell (r c).
 
-(* the sub-domain on which the code is right *)
-Definition dom_cell (is_ma : bool) (cls : nat) (c : bcell) : bool :=
-  negb (m1 c || m2 c) && negb (is_ma && leak cls c).
+(* well-formed input: only masked-typed variables carry masked cells *)
+Definition wf_cell (is_ma : bool) (c : bcell) : bool := is_ma || negb (m1 c || m2 c).
 
 Record bvar := BV {
   bname : nat;
@@ -72,8 +72,8 @@ Definition impl_binop (cls : nat) (coords : list nat) (vs : list bvar) : list (l
 Definition spec_binop (cls : nat) (coords : list nat) (vs : list bvar) : list (list ocell) :=
   map (binop_var (fun ma => spec_cell ma cls) coords) vs.
 
-Definition dom_var (cls : nat) (coords : list nat) (v : bvar) : bool :=
-  is_coord coords v || match bpair v with None => true | Some cs => forallb (dom_cell (bma v) cls) cs end.
+Definition wf_var (v : bvar) : bool :=
+  match bpair v with None => true | Some cs => forallb (wf_cell (bma v)) cs end.
 
 (* ---- mask() ---------------------------------------------------------------------- *)
 Record mcell := MC { raw : rv; msk : bool }.
@@ -108,21 +108,15 @@ Definition pred_hit (p : preds) (isfloat : bool) (x : rv) : bool :=
   || opt_test (rv_close isfloat x) (p_values p) || opt_test (rv_eq x) (p_equal p)
   || (p_invalid p && nonfin x).
 
-(* the `where` argument: a plain boolean array (no .dimensions), optional dims= argument *)
-Record wherearg := WA { w_shape : list nat; w_bits : list bool;
-                        w_dims : option (list nat * bool) (* dims=, and whether it is a tuple *) }.
+(* the `where` argument: a plain boolean array (no .dimensions), optional dims= argument (any
+   iterable of names: the code compares tuple(dims) with the variable's dimensions) *)
+Record wherearg := WA { w_shape : list nat; w_bits : list bool; w_dims : option (list nat) }.
 Record mvar := MV { mname : nat; mfloat : bool; mdims : list nat; mshape : list nat; mcells : list mcell }.
 
-(* the code: maskdims == vv.dimensions (a TUPLE; a list never compares equal) or
-   (maskdims is None and where.shape == vals.shape) *)
-Definition impl_applies (w : wherearg) (v : mvar) : bool :=
+(* maskdims == vv.dimensions or (maskdims is None and where.shape == vals.shape) *)
+Definition applies (w : wherearg) (v : mvar) : bool :=
   match w_dims w with
-  | Some (ds, istuple) => istuple && list_eqb Nat.eqb ds (mdims v)
-  | None => list_eqb Nat.eqb (w_shape w) (mshape v)
-  end.
-Definition spec_applies (w : wherearg) (v : mvar) : bool :=
-  match w_dims w with
-  | Some (ds, _) => list_eqb Nat.eqb ds (mdims v)
+  | Some ds => list_eqb Nat.eqb ds (mdims v)
   | None => list_eqb Nat.eqb (w_shape w) (mshape v)
   end.
 
@@ -132,28 +126,18 @@ Definition spec_mcell (p : preds) (isfloat : bool) (wb : bool) (c : mcell) : mce
   MC (raw c) (msk c || wb || pred_hit p isfloat (raw c)).
 
 (* the code: the numpy.ma.masked_* chain in the order where, greater, greater_equal, less,
-   less_equal, values, equal, invalid.  numpy.ma.masked_values first FILLS the masked cells with
-   `values` (cast to the array's dtype) and then builds a NEW mask from the comparison alone: on
-   an integer array and a non-integral `values` the filled cells hold trunc(values), compare
-   unequal, and come back UNMASKED with that value. *)
-Definition q_integral (v : Q) : bool := Qeq_bool (inject_Z (Z.quot (Qnum v) (Zpos (Qden v)))) v.
-Definition finish (p : preds) (x : rv) (m : bool) : mcell :=
-  MC x (m || opt_test (rv_eq x) (p_equal p) || (p_invalid p && nonfin x)).
+   less_equal, values, equal, invalid; every step ORs its comparison on the data into the mask
+   (values=: the comparison is made on the data and added with masked_where) *)
 Definition impl_mcell (p : preds) (isfloat : bool) (wb : bool) (c : mcell) : mcell :=
   let x := raw c in
-  let ma := msk c || wb || opt_test (rv_gt x) (p_greater p) || opt_test (rv_ge x) (p_greater_equal p)
-            || opt_test (rv_lt x) (p_less p) || opt_test (rv_le x) (p_less_equal p) in
-  match p_values p with
-  | Some v =>
-      if isfloat || q_integral v then finish p x (ma || rv_close isfloat x v)
-      else if ma then finish p (Fin (inject_Z (Z.quot (Qnum v) (Zpos (Qden v))))) false
-      else finish p x false
-  | None => finish p x ma
-  end.
-
-(* the sub-domain on which the chain is right *)
-Definition dom_values (p : preds) (isfloat : bool) : bool :=
-  match p_values p with Some v => isfloat || q_integral v | None => true end.
+  let m0 := msk c || wb in
+  let m1 := m0 || opt_test (rv_gt x) (p_greater p) in
+  let m2 := m1 || opt_test (rv_ge x) (p_greater_equal p) in
+  let m3 := m2 || opt_test (rv_lt x) (p_less p) in
+  let m4 := m3 || opt_test (rv_le x) (p_less_equal p) in
+  let m5 := m4 || opt_test (rv_close isfloat x) (p_values p) in
+  let m6 := m5 || opt_test (rv_eq x) (p_equal p) in
+  MC x (m6 || (p_invalid p && nonfin x)).
 
 Fixpoint zip_mask (cellf : bool -> mcell -> mcell) (bits : option (list bool)) (cs : list mcell) : list mcell :=
   match cs with
@@ -166,7 +150,7 @@ Fixpoint zip_mask (cellf : bool -> mcell -> mcell) (bits : option (list bool)) (
 
 Inductive mres := MOk (cells : list (list ocell)) | MIndexError.
 
-Definition mask_var (cellf : preds -> bool -> bool -> mcell -> mcell) (applies : wherearg -> mvar -> bool) (coords : list nat) (with_coords : bool)
+Definition mask_var (cellf : preds -> bool -> bool -> mcell -> mcell) (coords : list nat) (with_coords : bool)
            (w : option wherearg) (p : preds) (v : mvar) : option (list mcell) :=
   if existsb (Nat.eqb (mname v)) coords && negb with_coords then Some (mcells v)
   else match w with
@@ -185,17 +169,11 @@ Fixpoint all_some {A} (l : list (option A)) : option (list A) :=
   | None :: _ => None
   end.
 
-Definition mask_file cellf applies coords with_coords w p (vs : list mvar) : mres :=
-  match all_some (map (mask_var cellf applies coords with_coords w p) vs) with
+Definition mask_file cellf coords with_coords w p (vs : list mvar) : mres :=
+  match all_some (map (mask_var cellf coords with_coords w p) vs) with
   | Some r => MOk (map (map visible) r)
   | None => MIndexError
   end.
-Definition impl_mask := mask_file impl_mcell impl_applies.
-Definition spec_mask := mask_file spec_mcell spec_applies.
+Definition impl_mask := mask_file impl_mcell.
+Definition spec_mask := mask_file spec_mcell.
 
-Definition dims_is_list (w : option wherearg) : bool :=
-  match w with Some (WA _ _ (Some (_, false))) => true | _ => false end.
-
-(* an integer variable that is actually processed, with a non-integral values= *)
-Definition int_values_var (coords : list nat) (with_coords : bool) (p : preds) (v : mvar) : bool :=
-  negb (existsb (Nat.eqb (mname v)) coords && negb with_coords) && negb (dom_values p (mfloat v)).
